@@ -537,6 +537,7 @@ func (s *SecureChannel) readChunk() (*MessageChunk, error) {
 		return nil, errors.Errorf("sechan: decode sequence header failed: %s", err)
 	}
 	m.Data = m.Data[n:]
+	verifPoint("recv.chunk", m)
 
 	return m, nil
 }
